@@ -341,6 +341,48 @@ func scenario(c cfg) {
 				run.Count("fast_retransmits_judged", 1)
 			}
 		}
+		// ... and now the fast retransmission is lost too and the peer stays silent: every
+		// timeout (the first one fires while fast recovery is still in progress) sends exactly
+		// one segment, the earliest unacknowledged one, and the intervals at least double.
+		// (The interval between the fast retransmission and the first timeout is recorded,
+		// not judged: the timer is not restarted by a fast retransmission.)
+		if !bad && !timeoutDuringAcks && c.K%2 == 0 {
+			time.Sleep(130 * time.Second)
+			rawpeer.Settle()
+			segs := conn.Take()
+			byInstant := map[time.Duration][]int64{}
+			var instants []time.Duration
+			for _, s := range segs {
+				if s.Err == nil && len(s.Payload) > 0 {
+					if _, ok := byInstant[s.T]; !ok {
+						instants = append(instants, s.T)
+					}
+					byInstant[s.T] = append(byInstant[s.T], conn.RelSeq(s, maxEnd))
+				}
+			}
+			note(segs, "silence after the fast retransmission")
+			tr("silence after fast retransmit: timeouts at %v", instants)
+			if len(instants) == 0 {
+				viol("timeout/no-retransmission", fmt.Sprintf("fast retransmission of offset %d lost, peer silent for 130 s: nothing was retransmitted", una))
+				return
+			}
+			for i, at := range instants {
+				offs := byInstant[at]
+				if len(offs) != 1 {
+					viol("timeout/more-than-one-segment", fmt.Sprintf("timeout #%d (at %v, after a fast retransmission that drew no answer): %d data segments at offsets %v while the peer was silent", i+1, at, len(offs), offs))
+					return
+				}
+				if offs[0] != una {
+					viol("timeout/wrong-segment", fmt.Sprintf("timeout #%d after a fast retransmission carries stream offset %d, the earliest unacknowledged byte is %d", i+1, offs[0], una))
+					return
+				}
+				if i > 1 && at-instants[i-1] < 2*(instants[i-1]-instants[i-2]) {
+					viol("timeout/not-doubling", fmt.Sprintf("interval before timeout #%d is %v, the previous interval was %v (must at least double)", i+1, at-instants[i-1], instants[i-1]-instants[i-2]))
+					return
+				}
+			}
+			run.Count("timeouts_after_fast_retransmit_judged", int64(len(instants)))
+		}
 	case "cwnd":
 		// the peer acknowledges promptly; sometimes inside segments (ack division)
 		for step := 0; step < 400 && highestAck < total && !bad; step++ {
